@@ -340,31 +340,86 @@ def order_rules(rep, prog):
         return
     x, y = idx[1]
 
-    def sort_first(t):
-        """t = sort(L, order)[0] -> (L, order)"""
+    REV = (("ext", "reversed", (TO,), ()), ("sub", TO, ("slice", ("const", None), ("const", None), ("const", -1))),
+           ("sub", TO, ("slice", ("const", None), ("const", None), ("unop", "neg", ("const", 1)))))
+    TOS = (TO, ("ext", "list", (TO,), ()), ("ext", "numpy.array", (TO,), ()), ("ext", "numpy.asarray", (TO,), ()))
+
+    def is_position_map(P):
+        """P[node] = position of node in the topological order (the inverse permutation), as a dict or an array"""
+        if P[0] == "comp" and P[1] == "dict" and len(P[3]) == 1 and not P[3][0][2] and P[3][0][1] in [("ext", "enumerate", (t_,), ()) for t_ in TOS]:
+            t_ = P[3][0][1][2][0]
+            return P[2] == ("pair", ("elem", t_), ("idx", t_))
+        if P[0] == "store" and P[2] in TOS and P[4] is None and P[1][0] == "ext" and P[1][1] in ("numpy.zeros", "numpy.empty") and P[3][0] == "ext" and \
+                P[3][1] in ("numpy.arange", "range") and len(P[3][2]) == 1:
+            n_ = [("ext", "len", (t_,), ()) for t_ in TOS]
+            return P[3][2][0] in n_ and P[1][2][:1] and P[1][2][0] in n_
+        if P[0] == "ext" and P[1] == "numpy.argsort" and len(P[2]) == 1 and not P[3]:
+            return P[2][0] in TOS
+        return False
+
+    def key_kind(K):
+        """'position' | 'order-value' | None for the key function of min / max"""
+        if K[0] == "attr" and K[2] in ("__getitem__", "get") and is_position_map(K[1]):
+            return "position"
+        if K[0] == "attr" and K[2] == "index" and K[1] in TOS[1:2]:
+            return "position"
+        if K[0] == "attr" and K[2] == "__getitem__" and K[1] in TOS:
+            return "order-value"
+        if K[0] == "closure":
+            from ..sym import CLOSURES
+            clo = CLOSURES.get((K[1], K[2]))
+            if clo is None:
+                return None
+            try:
+                body = T(S.call_closure(clo, [("$n",)], {}, clo.node, {}, S.module_ctx(f.module)))
+            except Inconclusive:
+                return None
+            body = ab(body)
+            if body[0] == "sub" and body[2] == ("$n",):
+                if is_position_map(body[1]):
+                    return "position"
+                if body[1] in TOS:
+                    return "order-value"
+            if body[0] == "method" and body[2] == "index" and body[3] == (("$n",),) and body[1] in TOS:
+                return "position"
+        return None
+
+    def choice(t):
+        """the node picked out of a candidate list -> (candidates, 'first' | 'last' in topological order) | (candidates, ('bad', why)) | (None, None)"""
         if t[0] == "sub" and is_const(t[2], 0) and t[1][0] == "call" and t[1][1] == U + "sort":
             named = dict(t[1][3])
-            return named.get("L"), named.get("order")
+            o_ = named.get("order")
+            return named.get("L"), ("first" if o_ == TO else "last" if o_ in REV else ("bad", "sorted along %s" % fmt(o_)[:60]))
+        if t[0] == "ext" and t[1] in ("min", "max") and len(t[2]) == 1 and set(dict(t[3])) == {"key"}:
+            kk = key_kind(dict(t[3])["key"])
+            if kk == "position":
+                return t[2][0], ("first" if t[1] == "min" else "last")
+            if kk == "order-value":
+                return t[2][0], ("bad", "%s(..., key=order[node]) compares the nodes *found at* positions `node`, not the positions of the nodes" % t[1])
+        if t[0] == "sub" and t[2][0] == "ext" and t[2][1] in ("numpy.argmin", "numpy.argmax") and len(t[2][2]) == 1 and not t[2][3]:
+            a_ = t[2][2][0]
+            if a_[0] == "sub" and a_[2] == t[1] and is_position_map(a_[1]):
+                return t[1], ("first" if t[2][1].endswith("argmin") else "last")
+            if a_[0] == "sub" and a_[2] == t[1] and a_[1] in TOS:
+                return t[1], ("bad", "%s over order[candidates] compares the nodes found at those positions, not the positions of the candidates" % t[2][1].split(".")[-1])
         return None, None
-    Ly, Oy = sort_first(y)
-    Lx, Ox = sort_first(x)
+    Ly, endy = choice(y)
+    Lx, endx = choice(x)
     unl = ("cmp", "==", LAB, ("const", marker))
-    rev_ok = Oy in (("ext", "reversed", (TO,), ()), ("sub", TO, ("slice", ("const", None), ("const", None), ("const", -1))),
-                    ("sub", TO, ("slice", ("const", None), ("const", None), ("unop", "neg", ("const", 1)))))
-    oky = Ly is not None and rev_ok and any(z == ("ext", "numpy.where", (unl,), ()) for z in walk(Ly)) and \
+    oky = Ly is not None and endy == "last" and any(z == ("ext", "numpy.where", (unl,), ()) for z in walk(Ly)) and \
         ({z[2] for z in walk(Ly) if isinstance(z, tuple) and len(z) == 3 and z[0] == "sub" and z[1] == ("ext", "numpy.where", (unl,), ())} in ({("const", 0), ("const", 1)}, {("const", 1)}))
     if Ly is None:
-        rep.unk("STEP.order-y", fwhere(f, st[0].node), "the choice of y is not written as sort(candidates, reversed(order))[0]: %s is not read" % fmt(y)[:80])
+        rep.unk("STEP.order-y", fwhere(f, st[0].node), "the choice of y is not written as the first / last of a candidate list along the topological order: %s is not read" % fmt(y)[:80])
     else:
-        rep.check("STEP.order-y", oky, fwhere(f, st[0].node), "y = the last node, in topological order, with an unlabelled edge (sort(., reversed(order))[0])",
-                  "y is chosen as %s" % fmt(y)[:100])
+        rep.check("STEP.order-y", oky, fwhere(f, st[0].node), "y = the last node, in topological order, with an unlabelled edge",
+                  "y is chosen as %s%s" % (fmt(y)[:100], ": " + endy[1] if isinstance(endy, tuple) else ""))
     want_Lx = ("sub", ("ext", "numpy.where", (("cmp", "==", ("sub", LAB, ("tuple", (FULL, y))), ("const", marker)),), ()), ("const", 0))
-    okx = Lx == want_Lx and Ox == TO
+    okx = Lx == want_Lx and endx == "first"
     if Lx is None:
-        rep.unk("STEP.order-x", fwhere(f, st[0].node), "the choice of x is not written as sort(unlabelled parents of y, order)[0]: %s is not read" % fmt(x)[:80])
+        rep.unk("STEP.order-x", fwhere(f, st[0].node), "the choice of x is not written as the first / last of a candidate list along the topological order: %s is not read" % fmt(x)[:80])
     else:
         rep.check("STEP.order-x", okx, fwhere(f, st[0].node), "x = the first node, in topological order, among the unlabelled parents of y (column y)",
-                  "x is chosen as %s" % fmt(x)[:100])
+                  "x is chosen as %s%s" % (fmt(x)[:100], ": " + endx[1] if isinstance(endx, tuple) else ""))
 
 
 def ordering_typing(rep, prog, qnames):
